@@ -20,6 +20,17 @@ def run(tier):
                 for i, t in enumerate(rs):
                     p["r%d" % i] = t
                 jobs.append(dict(base, harness="VerifC07FindMatch", params=p))
+    if q:
+        # three requirements: one hard range among two soft ones, at every position
+        for hard in range(1, 7):
+            for pos in range(3):
+                rs = [0, 0, 0]
+                rs[pos] = hard
+                for listed in (7, 5):
+                    p = {"n": 3, "listed": listed}
+                    for i, t in enumerate(rs):
+                        p["r%d" % i] = t
+                    jobs.append(dict(base, harness="VerifC07FindMatch", params=p))
     for te in range(7):
         jobs.append(dict(base, harness="VerifC07Exclusions", params={"te": te}))
     for o in range(8):
@@ -34,7 +45,7 @@ def run(tier):
     for i in range(nsk):
         allsoft = 1 if i % 2 == 0 else 0
         p = {"allsoft": allsoft, "mgt": 0, "mgtr": 0}
-        kinds = [0, 0, 0, 1, 2, 3] if allsoft else [0, 0, 1, 2, 3, 4, 5]
+        kinds = [0, 0, 0, 1, 2, 3, 4] if allsoft else [0, 0, 1, 2, 3, 4, 5]
         reqs = [0, 1, 6] if allsoft else [0, 1, 2, 3, 4, 5, 6]
         targets = [1, 2, 3]
         rnd.shuffle(targets)
@@ -54,9 +65,28 @@ def run(tier):
                 p["p%d%dk" % (pi, vi)] = rnd.choice(kinds)
                 p["p%d%dx" % (pi, vi)] = rnd.randrange(3)
         jobs.append(dict(rbase, harness="VerifC07Resolve", params=p))
+    # directed family: a diamond (the root requires two artifacts that both require the third) with an exclusion
+    # on one of the root's declarations; all placements of the three artifacts, the exclusion naming either the
+    # shared artifact or the sibling
+    for perm in itertools.permutations([1, 2, 3]):
+        a, b, c = perm
+        for exslot in (0, 1):
+            for extarget in (c, b if exslot == 0 else a):
+                p = {"allsoft": 1, "mgt": 0, "mgtr": 0}
+                for s in range(3):
+                    p.update({"r%dt" % s: 0, "r%dr" % s: 0, "r%dk" % s: 0, "r%dx" % s: 0})
+                p.update({"r0t": a, "r1t": b})
+                p["r%dk" % exslot] = 4
+                p["r%dx" % exslot] = extarget - 1
+                for pi in range(3):
+                    p["nv%d" % pi] = 2
+                    for vi in range(3):
+                        tgt = c if (pi + 1) in (a, b) else 0
+                        p.update({"p%d%dt" % (pi, vi): tgt, "p%d%dr" % (pi, vi): 0, "p%d%dk" % (pi, vi): 0, "p%d%dx" % (pi, vi): 0})
+                jobs.append(dict(rbase, harness="VerifC07Resolve", params=p))
     return run_property("C07", tier, [Group("rmaven", jobs)],
                         required_covers=["requirements parsed", "match expected", "no candidate", "excluded", "not excluded", "dependency followed",
-                                         "dependency skipped", "same artifact", "different artifact", "resolved", "a graph with several nodes", "nearest-wins checked"],
+                                         "dependency skipped", "same artifact", "different artifact", "resolved", "a graph with several nodes", "nearest-wins checked", "a declaration excluded on its path"],
                         assumptions=["unit lemmas: findMatch, isExcluded/parseExclusions/mergeExclusions, imports, packageKeyForDependency",
-                                     "whole resolver: universe skeletons (3 artifacts + root, <=3 versions, one requirement slot per version, three for the root, optional root dependencyManagement entry) are a fixed pseudo-random sample; version numbers and the digits in requirements are symbolic in 1..4; the nearest-wins clause is asserted on the skeletons with soft requirements only; exclusion-along-paths is asserted only through the unit lemma"],
+                                     "whole resolver: universe skeletons (3 artifacts + root, <=3 versions, one requirement slot per version, three for the root, optional root dependencyManagement entry) are a fixed pseudo-random sample; version numbers and the digits in requirements are symbolic in 1..4; the nearest-wins clause, with exclusions inherited along paths, is asserted against a breadth-first reference on the skeletons with soft requirements only (random sample plus a directed diamond-with-exclusion family)"],
                         bounds={"requirements": 2 if q else 3, "listed_versions": 3, "digits": "1-4"})
